@@ -41,7 +41,9 @@ func FuzzWrapCases() []FuzzWrapCase {
 			}
 			rec := &Rec{}
 			prop := c04Prop(body, rec)
-			ref, _ := runWith(p.New(), func(pr func(*rapid.T)) rapid.VerifResult { return rapid.VerifRunBuf(tb, wordsOfBytes(input), false, pr) })
+			ref, _ := runWith(p.New(), func(pr func(*rapid.T)) rapid.VerifResult {
+				return rapid.VerifRunBuf(tb, wordsOfBytes(input), false, pr)
+			})
 			n++
 			out = append(out, FuzzWrapCase{Name: fmt.Sprintf("case%02d", n), Prop: prop, Input: input, Expect: classOfKind(ref.res.Kind)})
 		}
